@@ -185,6 +185,108 @@ def run_case(case_path, timeout):
     return "toolerror", states, gen_, out[-1500:]
 
 
+def words_for(a, letters, rng, maxlen, nacc, nrej):
+    """accepted words (walks of the extracted automaton over the representative letters) and candidate rejected words"""
+    trans = {}
+    for q, b, q2, m in a["trans"]:
+        trans.setdefault(q, []).append((b, q2))
+    finals = set(a["finals"])
+    acc = []
+    # breadth-first: shortest accepted words
+    seen = {a["initial"]: []}
+    frontier = [a["initial"]]
+    while frontier and len(acc) < nacc:
+        nxt = []
+        for q in frontier:
+            if q in finals and seen[q] not in acc:
+                acc.append(seen[q])
+            for b, q2 in trans.get(q, []):
+                if q2 not in seen and len(seen[q]) < maxlen:
+                    seen[q2] = seen[q] + [b]
+                    nxt.append(q2)
+        frontier = nxt
+    # random walks ending in a final state
+    for _ in range(nacc * 4):
+        q, w = a["initial"], []
+        for _ in range(rng.randrange(1, maxlen + 1)):
+            if not trans.get(q):
+                break
+            b, q = rng.choice(trans[q])
+            w.append(b)
+        if q in finals and w not in acc and len(acc) < 2 * nacc:
+            acc.append(w)
+    rej = [[]]
+    for w in acc[:nrej]:
+        if w:
+            v = list(w)
+            v[rng.randrange(len(v))] = rng.choice(letters)
+            rej.append(v)
+            rej.append(w[:-1])
+            rej.append(w + [rng.choice(letters)])
+    for _ in range(nrej):
+        rej.append([rng.choice(letters) for _ in range(rng.randrange(1, 6))])
+    out = []
+    for w in acc + rej:
+        if w not in out:
+            out.append(w)
+    return out
+
+
+def parser_half(rep, tier, wd, rng, cases, results):
+    """In-circuit parser: AutomatonChip::parse on the compiled automata, judged by RegexWords.tla."""
+    equal = [(s, a, cpath) for (s, a, cpath), (res, _, _, _) in zip(cases, results) if res == "equal" and a["nb_states"] <= 40]
+    pick = equal if len(equal) <= (24 if tier == "quick" else 250) else rng.sample(equal, 24 if tier == "quick" else 250)
+    scen = []
+    for s, a, cpath in pick:
+        words = words_for(a, s["letters"], rng, 10 if tier == "quick" else 40, 4 if tier == "quick" else 8, 3 if tier == "quick" else 6)
+        sc = {"id": s["id"], "lib": s["lib"], "k": 10, "words": words}
+        if rng.random() < (0.3 if tier == "quick" else 0.6):
+            sc.update({"faults": ["plus1", "zero"], "max_index": 12 if tier == "quick" else 40})
+        scen.append(sc)
+    chunks = [scen[i::vlib.NCPU] for i in range(vlib.NCPU)]
+    jobs = []
+    for i, ch in enumerate(chunks):
+        if ch:
+            cp = os.path.join(wd, f"pscen_{i}.ndjson")
+            vlib.write_ndjson(cp, ch)
+            jobs.append(["c19", "parse", cp, os.path.join(wd, f"parse_{i}.ndjson")])
+    vlib.run_vh_parallel(jobs, timeout=4 * 3600)
+    runs = {}
+    for j in jobs:
+        for r in vlib.read_ndjson(j[3]):
+            if r["ev"] == "Parse":
+                runs.setdefault(r["id"], []).append(r)
+    byid = {s["id"]: (s, a) for s, a, _ in pick}
+
+    def judge(i):
+        s, a = byid[i]
+        cpath = os.path.join(wd, f"wcase_{i}.json")
+        json.dump({"expr": s["core"], "letters": s["letters"], "markers": s["markers"],
+                   "automaton": {"nb_states": a["nb_states"], "initial": a["initial"], "finals": a["finals"], "trans": []},
+                   "runs": [{"word": r["word"], "status": r["status"], "exposed": r["exposed"], "tampered": r["tampered"]} for r in runs[i]]}, open(cpath, "w"))
+        r = vlib.run_tlc("RegexWords.tla", "RegexWords.cfg", "C19", env={"CASE": cpath}, workers=1, timeout=600)
+        return i, r
+    nruns = nacc = ntam = 0
+    with ThreadPoolExecutor(max_workers=8) as ex:
+        for i, r in ex.map(judge, [i for i in runs]):
+            rs = runs[i]
+            nruns += len(rs)
+            nacc += sum(1 for x in rs if x["status"] == "sat" and not x["tampered"])
+            ntam += sum(1 for x in rs if x["tampered"])
+            if r["violated"] == "WordsOK":
+                import re
+                m = re.search(r'"BAD-RUNS", \{([0-9, ]*)\}', r["out"])
+                bad = [int(x) for x in m.group(1).split(",")] if m and m.group(1).strip() else []
+                for b in bad[:3]:
+                    e = rs[b - 1]
+                    rep.violation({"kind": "parser", "status": e["status"], "tampered": e["tampered"]},
+                                  f"in-circuit parser, expression {i} ({json.dumps(byid[i][0]['lib'])[:160]}): word={e['word']} status={e['status']} "
+                                  f"exposed={e['exposed']} tamper={e.get('tamper')}", {"scenario": byid[i][0], "parser_run": e})
+            else:
+                vlib.require_tlc_ok(r, f"RegexWords case {i}")
+    return {"parser_expressions": len(runs), "parser_runs": nruns, "parser_accepted_words": nacc, "parser_tampered_runs": ntam}
+
+
 def run(tier):
     rep = vlib.Report("C19", tier, "model_checking")
     wd = vlib.workdir("C19")
@@ -243,6 +345,8 @@ def run(tier):
         elif res == "toolerror":
             raise vlib.ToolError(f"TLC failed on case {s['id']}: {tail[-600:]}")
     log(f"[C19] {len(cases)} expressions: {outcome}")
+    pstats = parser_half(rep, tier, wd, rng, cases, results)
+    log(f"[C19] in-circuit parser: {pstats}")
     if outcome["equal"] == 0 and not rep.violations:
         raise vlib.ToolError("vacuity: no expression decided")
     rep.coverage.update({
@@ -250,6 +354,7 @@ def run(tier):
         "traces_validated_against_impl": outcome["equal"],
         "expressions": len(scen), "outcomes": outcome,
         "max_automaton_states": max((a["nb_states"] for _, a, _ in cases), default=0),
+        **pstats,
         "samples": [scen[0]["lib"], scen[1]["lib"]],
         "exhaustive": False,
     })
@@ -258,7 +363,8 @@ def run(tier):
                         "bytes an expression does not mention are represented by one byte (33)",
                         "expressions whose derivative automaton does not finish within the per-case timeout are "
                         "counted as undecided, not as passed",
-                        "the in-circuit parser and base64 halves of C19 are not covered by this check"]
+                        "in-circuit parser: words are walks of the extracted automaton over the representative letters plus mutated and random "
+                        "words; shipped serialized automata and base64 decoding are not covered by this check"]
     return rep.finish()
 
 
